@@ -32,6 +32,9 @@ def _flat_text_variants(segs):
 
 
 def check(repo: Repo, run: Run) -> None:
+    from .c09 import window_obligations
+    window_obligations(repo, run, ("K9",), "a registered decoder is then not the one applied to the records carrying its name "
+                                            "(base call and _nocancel twin can be decoded by different logic, or one of them not at all)")
     D = decoders.Decoders(repo)
     reg = D.reg
     codes = repo.trace_codes_lines()
